@@ -80,35 +80,51 @@ IVars(e) == CASE e[1] = "iint" -> {e[2]} \cup IVars(e[3])
               [] OTHER -> {}
 
 (* ------------------------------------------------------------------------------------------------ *)
-(* Deg(e, x): a syntactic upper bound of the degree of e as a polynomial in x, or -1 when e is not    *)
-(* syntactically a polynomial in x.                                                                  *)
-RECURSIVE Deg(_, _)
-Deg(e, x) ==
-  IF x \notin FV(e) THEN 0
-  ELSE CASE e[1] = "var" -> 1
-    [] e[1] = "neg" -> Deg(e[2], x)
-    [] e[1] = "op" ->
-         LET da == Deg(e[3], x) IN
-         IF e[2] \in {"+", "-"} THEN LET db == Deg(e[4], x) IN IF da < 0 \/ db < 0 THEN -1 ELSE MaxN(da, db)
-         ELSE IF e[2] = "*" THEN LET db == Deg(e[4], x) IN IF da < 0 \/ db < 0 THEN -1 ELSE da + db
-         ELSE IF e[2] = "/" THEN (IF x \in FV(e[4]) THEN -1 ELSE da)
+(* Occ(e, x): x occurs free in e.   DG(e, x) = <<Occ(e, x), d>>: d is a syntactic upper bound of the    *)
+(* degree of e as a polynomial in x (0 when x does not occur), or -1 when e is not syntactically a      *)
+(* polynomial in x.  One pass.                                                                        *)
+RECURSIVE Occ(_, _)
+Occ(e, x) == CASE e[1] = "op" -> Occ(e[3], x) \/ Occ(e[4], x)
+               [] e[1] = "var" -> e[2] = x
+               [] e[1] = "const" -> FALSE
+               [] e[1] = "neg" -> Occ(e[2], x)
+               [] e[1] = "fun" -> \E i \in 1..Len(e[3]) : Occ(e[3][i], x)
+               [] e[1] \in {"int", "evalat", "sum"} -> Occ(e[3], x) \/ Occ(e[4], x) \/ (e[2] # x /\ Occ(e[5], x))
+               [] e[1] \in {"iint", "deriv"} -> e[2] = x \/ Occ(e[3], x)
+               [] e[1] = "lim" -> Occ(e[3], x) \/ (e[2] # x /\ Occ(e[4], x))
+               [] e[1] = "skolem" -> \E i \in 1..Len(e[3]) : Occ(e[3][i], x)
+               [] e[1] = "diff" -> Occ(e[2], x)
+               [] OTHER -> FALSE
+RECURSIVE DG(_, _)
+Eff(r) == IF r[1] THEN r[2] ELSE 0            \* a subterm without x counts as a constant, whatever it is
+NoX == <<FALSE, 0>>
+DG(e, x) ==
+  CASE e[1] = "op" ->
+         LET a == DG(e[3], x)  b == DG(e[4], x)  da == Eff(a)  db == Eff(b) IN
+         IF ~a[1] /\ ~b[1] THEN NoX
+         ELSE IF e[2] \in {"+", "-"} THEN <<TRUE, IF da < 0 \/ db < 0 THEN -1 ELSE MaxN(da, db)>>
+         ELSE IF e[2] = "*" THEN <<TRUE, IF da < 0 \/ db < 0 THEN -1 ELSE da + db>>
+         ELSE IF e[2] = "/" THEN <<TRUE, IF b[1] THEN -1 ELSE da>>
          ELSE IF e[2] = "^" THEN
-              (IF e[4][1] = "const" /\ e[4][3] = 1 /\ e[4][2] >= 0 /\ e[4][2] <= MaxDeg /\ da >= 0 THEN da * e[4][2] ELSE -1)
-         ELSE -1
-    [] e[1] = "int" ->
-         LET y == e[2]  dl == Deg(e[3], x)  dh == Deg(e[4], x)  dy == Deg(e[5], y)
-             dbx == IF y = x THEN 0 ELSE Deg(e[5], x) IN
-         IF dl < 0 \/ dh < 0 \/ dy < 0 \/ dbx < 0 THEN -1 ELSE dbx + (dy + 1) * MaxN(dl, dh)
-    [] e[1] = "evalat" ->
-         LET y == e[2]  dl == Deg(e[3], x)  dh == Deg(e[4], x)
-             dbx == IF y = x THEN 0 ELSE Deg(e[5], x) IN
-         IF dl < 0 \/ dh < 0 \/ dbx < 0 THEN -1
-         ELSE IF MaxN(dl, dh) = 0 THEN dbx
-         ELSE LET dy == Deg(e[5], y) IN IF dy < 0 THEN -1 ELSE dbx + dy * MaxN(dl, dh)
+              <<TRUE, IF ~b[1] /\ e[4][1] = "const" /\ e[4][3] = 1 /\ e[4][2] >= 0 /\ e[4][2] <= MaxDeg /\ da >= 0 THEN da * e[4][2] ELSE -1>>
+         ELSE <<TRUE, -1>>
+    [] e[1] = "var" -> IF e[2] = x THEN <<TRUE, 1>> ELSE NoX
+    [] e[1] = "const" -> NoX
+    [] e[1] = "neg" -> DG(e[2], x)
+    [] e[1] \in {"int", "evalat"} ->
+         LET y == e[2]  l == DG(e[3], x)  h == DG(e[4], x)  bx == IF y = x THEN NoX ELSE DG(e[5], x)
+             dl == Eff(l)  dh == Eff(h)  dbx == Eff(bx)  m == MaxN(dl, dh) IN
+         IF ~l[1] /\ ~h[1] /\ ~bx[1] THEN NoX
+         ELSE IF dl < 0 \/ dh < 0 \/ dbx < 0 THEN <<TRUE, -1>>
+         ELSE IF m = 0 THEN <<TRUE, dbx>>                       \* bounds without x
+         ELSE LET dy == Eff(DG(e[5], y)) IN
+              <<TRUE, IF dy < 0 THEN -1 ELSE IF e[1] = "int" THEN dbx + (dy + 1) * m ELSE dbx + dy * m>>
     [] e[1] = "sum" ->
-         IF x \in FV(e[3]) \/ x \in FV(e[4]) THEN -1 ELSE IF e[2] = x THEN 0 ELSE Deg(e[5], x)
-    [] e[1] = "deriv" -> Deg(e[3], x)
-    [] OTHER -> -1
+         LET bx == IF e[2] = x THEN NoX ELSE DG(e[5], x) IN
+         IF Occ(e[3], x) \/ Occ(e[4], x) THEN <<TRUE, -1>> ELSE bx
+    [] e[1] = "deriv" -> LET b == DG(e[3], x) IN IF e[2] = x THEN <<TRUE, Eff(b)>> ELSE b
+    [] OTHER -> IF Occ(e, x) THEN <<TRUE, -1>> ELSE NoX
+Deg(e, x) == Eff(DG(e, x))
 
 (* ------------------------------------------------------------------------------------------------ *)
 (* Polynomials as coefficient sequences over Rat (lowest degree first) and Newton interpolation.     *)
@@ -142,7 +158,7 @@ RECURSIVE Ev(_, _, _)
 MaxSt(s) == IF \E i \in 1..Len(s) : s[i][1] = 2 THEN 2 ELSE IF \E i \in 1..Len(s) : s[i][1] = 1 THEN 1 ELSE 0
 
 EvPow(a, b, e, dx) ==
-  IF dx # "" /\ dx \in FV(e[4]) THEN Unk
+  IF dx # "" /\ Occ(e[4], dx) THEN Unk
   ELSE IF ~IsIntQ(b[2]) \/ b[2][1] > 12 \/ b[2][1] < -12 THEN Unk
   ELSE LET n == b[2][1]  va == a[2] IN
     IF n = 0 THEN (IF va[1] = 0 THEN Unk ELSE <<0, One, Z>>)            \* 0 ^ 0 : not judged
@@ -161,8 +177,9 @@ EvOp(e, env, dx) ==
                           ELSE MkD(dx, RDiv(a[2], b[2]), RDiv(QSub(QMul(a[3], b[2]), QMul(a[2], b[3])), QMul(b[2], b[2])))
          [] e[2] = "^" -> EvPow(a, b, e, dx)
 
-EvInt(e, env, dx) ==
-  LET x == e[2]  lo == Ev(e[3], env, dx)  hi == Ev(e[4], env, dx)  st == MaxSt(<<lo, hi>>) IN
+EvInt(e, env, dx0) ==
+  LET dx == IF dx0 # "" /\ Occ(e, dx0) THEN dx0 ELSE ""
+      x == e[2]  lo == Ev(e[3], env, dx)  hi == Ev(e[4], env, dx)  st == MaxSt(<<lo, hi>>) IN
   IF st # 0 THEN Bad(st) ELSE
   LET D == Deg(e[5], x) IN
   IF D < 0 \/ D > MaxDeg THEN Unk ELSE
@@ -178,8 +195,9 @@ EvInt(e, env, dx) ==
                  QSub(QMul(PolyAt(c, hi[2]), hi[3]), QMul(PolyAt(c, lo[2]), lo[3]))) IN
   Mk(val, dv)
 
-EvEvalAt(e, env, dx) ==
-  LET x == e[2]  lo == Ev(e[3], env, dx)  hi == Ev(e[4], env, dx)  st == MaxSt(<<lo, hi>>) IN
+EvEvalAt(e, env, dx0) ==
+  LET dx == IF dx0 # "" /\ Occ(e, dx0) THEN dx0 ELSE ""
+      x == e[2]  lo == Ev(e[3], env, dx)  hi == Ev(e[4], env, dx)  st == MaxSt(<<lo, hi>>) IN
   IF st # 0 THEN Bad(st) ELSE
   LET dxi == IF dx = x THEN "" ELSE dx
       f1 == Ev(e[5], Ext(env, x, hi[2]), dxi)
@@ -204,14 +222,14 @@ SumFrom(body, env, i, n, hi, dxi) ==
 EvSum(e, env, dx) ==
   LET i == e[2]  lo == Ev(e[3], env, "")  hi == Ev(e[4], env, "")  st == MaxSt(<<lo, hi>>) IN
   IF st # 0 THEN Bad(st)
-  ELSE IF dx # "" /\ (dx \in FV(e[3]) \/ dx \in FV(e[4])) THEN Unk
+  ELSE IF dx # "" /\ (Occ(e[3], dx) \/ Occ(e[4], dx)) THEN Unk
   ELSE IF ~IsIntQ(lo[2]) \/ ~IsIntQ(hi[2]) THEN Unk
   ELSE IF hi[2][1] < lo[2][1] \/ hi[2][1] - lo[2][1] > 12 THEN Unk          \* empty or long sums : not judged
   ELSE SumFrom(e[5], env, i, lo[2][1], hi[2][1], IF dx = i THEN "" ELSE dx)
 
 EvIInt(e, env, dx) ==           \* the antiderivative that vanishes at 0, as a function of x
   LET x == e[2] IN
-  IF dx # "" \/ x \notin DOMAIN env THEN Unk ELSE
+  IF (dx # "" /\ Occ(e, dx)) \/ x \notin DOMAIN env THEN Unk ELSE
   LET D == Deg(e[3], x) IN
   IF D < 0 \/ D > MaxDeg THEN Unk ELSE
   LET smp == [i \in 1..(D + 1) |-> Ev(e[3], Ext(env, x, RInt(i - 1)), "")]
@@ -219,15 +237,15 @@ EvIInt(e, env, dx) ==           \* the antiderivative that vanishes at 0, as a f
   IF st # 0 THEN Bad(st) ELSE Mk(AntiAt(Coeffs([i \in 1..(D + 1) |-> smp[i][2]]), env[x]), Z)
 
 Ev(e, env, dx) ==
-  IF dx # "" /\ dx \notin FV(e) THEN LET r == Ev(e, env, "") IN <<r[1], r[2], Z>>
-  ELSE CASE e[1] = "var" -> IF e[2] \in DOMAIN env THEN <<0, env[e[2]], IF e[2] = dx THEN One ELSE Z>> ELSE Unk
-    [] e[1] = "const" -> IF e[3] > 0 THEN <<0, RNorm(e[2], e[3]), Z>> ELSE Unk
+  CASE e[1] = "op" -> EvOp(e, env, dx)
+    [] e[1] = "const" -> IF e[3] > 0 THEN <<0, IF e[3] = 1 THEN <<e[2], 1>> ELSE RNorm(e[2], e[3]), Z>> ELSE Unk
+    [] e[1] = "var" -> IF e[2] \in DOMAIN env THEN <<0, env[e[2]], IF e[2] = dx THEN One ELSE Z>> ELSE Unk
     [] e[1] = "neg" -> LET a == Ev(e[2], env, dx) IN IF a[1] # 0 THEN a ELSE <<0, RNeg(a[2]), IF dx = "" THEN Z ELSE RNeg(a[3])>>
-    [] e[1] = "op" -> EvOp(e, env, dx)
     [] e[1] = "int" -> EvInt(e, env, dx)
     [] e[1] = "evalat" -> EvEvalAt(e, env, dx)
     [] e[1] = "sum" -> EvSum(e, env, dx)
-    [] e[1] = "deriv" -> IF dx # "" THEN Unk ELSE LET a == Ev(e[3], env, e[2]) IN IF a[1] # 0 THEN a ELSE <<0, a[3], Z>>
+    [] e[1] = "deriv" -> IF dx # "" /\ Occ(e, dx) THEN Unk              \* second derivatives are not examined
+                         ELSE LET a == Ev(e[3], env, e[2]) IN IF a[1] # 0 THEN a ELSE <<0, a[3], Z>>
     [] e[1] = "iint" -> EvIInt(e, env, dx)
     [] e[1] = "skolem" -> <<0, Z, Z>>              \* an arbitrary constant; only used in the "up to a constant" comparison
     [] e[1] = "fun" -> IF e[2] = "abs" /\ Len(e[3]) = 1
@@ -249,10 +267,10 @@ CondHolds(c, env) ==
   CASE c[2] = "=" -> k = 0 [] c[2] = "!=" -> k \in {-1, 1} [] c[2] = "<" -> k = -1
     [] c[2] = "<=" -> k \in {-1, 0} [] c[2] = ">" -> k = 1 [] c[2] = ">=" -> k \in {0, 1}
 
-Grid(n) == CASE n <= 1 -> {<<-2, 1>>, <<-1, 1>>, <<0, 1>>, <<1, 1>>, <<2, 1>>, <<1, 2>>, <<3, 1>>}
-             [] n = 2 -> {<<-1, 1>>, <<0, 1>>, <<1, 1>>, <<2, 1>>, <<1, 2>>}
-             [] n = 3 -> {<<-1, 1>>, <<1, 1>>, <<2, 1>>}
-             [] OTHER -> {<<1, 1>>, <<2, 1>>}
+Grid(n) == CASE n <= 1 -> {<<-1, 1>>, <<0, 1>>, <<1, 2>>, <<2, 1>>}
+             [] n = 2 -> {<<-1, 1>>, <<1, 2>>, <<2, 1>>}
+             [] n \in {3, 4} -> {<<-1, 1>>, <<2, 1>>}
+             [] OTHER -> {<<2, 1>>, <<3, 1>>}
 MaxVars == 5
 
 (* SameValue(e, r, conds) = <<fails, compared>> :  compared = the two expressions could be evaluated  *)
@@ -267,15 +285,17 @@ SameValue(e, r, conds) ==
   IF Cardinality(vs) > MaxVars \/ (upto /\ Cardinality(iv) # 1) THEN <<FALSE, FALSE>> ELSE
   LET pts == [vs -> Grid(Cardinality(vs))]
       adm == {env \in pts : \A i \in 1..Len(conds) : CondHolds(conds[i], env)}
-      \* <<both defined, difference>>
-      dv == [env \in adm |-> LET a == Val(e, env)  b == Val(r, env)  d == QSub(a[2], b[2]) IN
-                             IF a[1] # 0 \/ b[1] # 0 \/ RIsOvf(d) THEN <<FALSE, Z>> ELSE <<TRUE, d>>]
-      cmp == {env \in adm : dv[env][1]} IN
-  IF ~upto THEN << \E env \in cmp : dv[env][2] # Z, cmp # {} >>
+      \* <<both defined, difference>> at one point
+      Diff(env) == LET a == Val(e, env)  b == Val(r, env) IN
+                   IF a[1] # 0 \/ b[1] # 0 THEN <<FALSE, Z>> ELSE LET d == QSub(a[2], b[2]) IN IF RIsOvf(d) THEN <<FALSE, Z>> ELSE <<TRUE, d>> IN
+  IF ~upto THEN LET codes == {Diff(env) : env \in adm} IN              \* every point is evaluated once
+                << \E c \in codes : c[1] /\ c[2] # Z, \E c \in codes : c[1] >>
   ELSE LET x == CHOOSE y \in iv : TRUE IN
-       IF \E i \in 1..Len(conds) : x \in FV(conds[i]) THEN <<FALSE, FALSE>>
-       ELSE << \E p \in cmp : \E q \in cmp : (\A y \in vs \ {x} : p[y] = q[y]) /\ dv[p][2] # dv[q][2],
-               \E p \in cmp : \E q \in cmp : p # q /\ (\A y \in vs \ {x} : p[y] = q[y]) >>
+       IF x \notin vs \/ \E i \in 1..Len(conds) : x \in FV(conds[i]) THEN <<FALSE, FALSE>>
+       ELSE LET res == {<<[y \in vs \ {x} |-> env[y]], env[x], Diff(env)>> : env \in adm}
+                cmp == {t \in res : t[3][1]} IN
+            << \E p \in cmp : \E q \in cmp : p[1] = q[1] /\ p[3][2] # q[3][2],
+               \E p \in cmp : \E q \in cmp : p[1] = q[1] /\ p[2] # q[2] >>
 
 (* ------------------------------------------------------------------------------------------------ *)
 (* Canonical form of numerals for the print / parse comparison: the parser reads  -3  as the constant  *)
